@@ -47,7 +47,60 @@ def staleHistory : Option (Coef × Coef × Coef) :=
 solve, whose solution gives 4. -/
 theorem resolve_full_fails : staleHistory = some (1, 1, 4) := by decide +kernel
 
+/-! ### multipliers and leaves after a solve -/
+
+theorem lookup_filterMap_key (h : Nat) :
+    ∀ (l : List Nat), l.Nodup → ∀ (g : Nat → Option Coef) (rest : List (Nat × Coef)) (v : Coef),
+      (h, v) ∈ l.filterMap (fun a => (g a).map (fun x => (a, x))) →
+      ((l.filterMap (fun a => (g a).map (fun x => (a, x)))) ++ rest).lookup h = some v := by
+  intro l
+  induction l with
+  | nil => intro _ g rest v hm; simp at hm
+  | cons a t ih =>
+    intro hnd g rest v hm
+    rw [List.nodup_cons] at hnd
+    rw [List.filterMap_cons] at hm ⊢
+    cases hga : g a with
+    | none => simp only [hga, Option.map_none] at hm ⊢; exact ih hnd.2 g rest v hm
+    | some x =>
+      simp only [hga, Option.map_some, List.mem_cons, Prod.mk.injEq] at hm
+      simp only [hga, Option.map_some, List.cons_append]
+      rcases hm with ⟨rfl, rfl⟩ | hm
+      · simp [List.lookup]
+      · have hne : h ≠ a := by
+          intro e; subst e
+          rw [List.mem_filterMap] at hm
+          obtain ⟨b, hb, hb2⟩ := hm
+          cases hgb : g b with
+          | none => simp [hgb] at hb2
+          | some y =>
+            simp only [hgb, Option.map_some, Option.some.injEq, Prod.mk.injEq] at hb2
+            exact hnd.1 (hb2.1 ▸ hb)
+        have : (h == a) = false := by simpa using hne
+        simp only [List.lookup, this]
+        exact ih hnd.2 g rest v hm
+
+/-- **leaves always report the latest solve**: after `afterSolve`, the value stored for a leaf
+expression is the entry of the *new* `F`, whatever was stored before -/
+theorem leaf_latest (w : World) (s : EvalSt) (sol : Solution) (h c : Nat) (e : EObj)
+    (he : w.exs[h]? = some e) (hleaf : e.leaf = some c) :
+    ((s.afterSolve w sol).exVal.lookup h) = some (sol.F.getD c 0) := by
+  have hlv : leafValue w sol h = some (sol.F.getD c 0) := by simp [leafValue, he, hleaf]
+  have hlt : h < w.exs.size := by
+    by_contra hge
+    have : w.exs[h]? = Option.none := by simp [Array.getElem?_eq_none (Nat.le_of_not_lt hge)]
+    rw [this] at he; cases he
+  have hmem : (h, sol.F.getD c 0) ∈ leafVals w sol := by
+    unfold leafVals
+    rw [List.mem_filterMap]
+    exact ⟨h, List.mem_range.mpr hlt, by simp [hlv]⟩
+  unfold EvalSt.afterSolve
+  simp only
+  unfold leafVals at hmem ⊢
+  exact lookup_filterMap_key h _ List.nodup_range _ _ _ hmem
+
 end Pepit
 
+#print axioms Pepit.leaf_latest
 #print axioms Pepit.fresh_expr_latest
 #print axioms Pepit.resolve_full_fails
